@@ -138,6 +138,30 @@ CLAIMS = {
              "text, %s, %c, %03o exact; numeric conversions a placeholder); ASCII/C locale.  KNOWN FINDING (known-findings.txt): a string whose last "
              "byte is not NUL gains a trailing NUL on the round trip (str.any.*); strings ending in NUL round-trip exactly (str.nulterm.*).",
         technique=TECH),
+    "C04": dict(
+        level="translation_validation", design="DESIGN.md section 3, C04 and section 8",
+        text="For every function of a corpus ONE CBMC run executes three legs from the same symbolic inputs and asserts equal results, equal final "
+             "buffer contents and equal external-call logs: (r) the meaning of the MIR text AS WRITTEN (tools/mir2ref.py over ref/mir_ref.h: every call a "
+             "real call, no simplification), (h) the real interpreter on the icode of what the REAL MIR_link produced (simplified, inlined; engine E2), "
+             "(n) the same with the inlining thresholds compiled to 0.  Corpus (generated from VERIF_SEED + hand-written + mir-tests): inlining thresholds "
+             "pinned by the number of calls left after link, chains/recursion, nine alloca scenarios incl. bstart/bend, blk0-4 x sizes 1..24, rblk, narrow "
+             "argument/result types, multiple rets, 19 jump-threading shapes, operand lowering.",
+        note="Programs outside the corpus; <= 300 executed icode insns per activation, depth <= 3, <= 4 external calls; DATA arguments fully symbolic, "
+             "CONTROL arguments case-split to a few values (three legs repeat every symbolic branch); the FFI trampoline is replaced by a C dispatcher, "
+             "alloca is a bump arena (a bend releasing too little is not visible); symbolic mul/div avoided (C02's subject); trusted: mir2ref.py + mir_ref.h.",
+        technique=TECH + "; per-program equivalence of real interpreter on real link output vs reference translation, via cbmc --paths"),
+    "C20": dict(
+        level="translation_validation", design="DESIGN.md section 3, C20 and section 8",
+        text="For every module of a corpus the REAL MIR_module2c (native, from the working tree, under a 20 s / 8 MB limit = termination) emits C; goto-cc "
+             "and gcc -fsyntax-only must accept it; CBMC then runs every exported function of the emitted C against the real interpreter on the icode "
+             "of the same module (E2) from symbolic arguments with the same external stubs and asserts equal results and call logs.  Corpus: one "
+             "function per non-control opcode and compare-branch, memory operand forms, data sections of every element type, calls, overflow insns, "
+             "immediates on a boundary grid.",
+        note="KNOWN FINDINGS (known-findings.txt): mir2c has no translation of `switch`, refuses expr data, prints infinite immediates as inf/inff, tests "
+             "the signed flag for ubo/ubno after addo/subo, emits one-element data / ref items as values, passes block arguments by reference.  "
+             "Excluded: multi-result functions (property), va_*, jcall/jret, laddr/jmpi, property insns, lref.  mul/div/mod, fmul/fdiv and double/long "
+             "double arithmetic on constant grids; long double = binary128 on both legs; C-level UB of the emitted C evaluated as -fwrapv.",
+        technique=TECH + "; emitted C compiled by goto-cc and compared with the real interpreter"),
 }
 
 NOT_APPLICABLE = {
